@@ -31,9 +31,10 @@ func init() {
 			"(b) gates of Get: read error (not-exist -> the miss sentinel, others -> error), decode error, base parse error, delta parse error whenever a delta is stored, base expiry, delta expiry whenever a delta exists — all on every success exit; " +
 			"the function that consults the clock fails on a zero NextUpdate and returns the miss sentinel exactly when time.Now().After(nextUpdate), and these facts hold for the NextUpdate of the bundle's own lists on every success exit of Get; " +
 			"(c) URL confinement: every file-system path of Get and Set is Join(root, hex(sha256(url))) — the URL reaches the file system only through the hash (no separator or dot segment can appear, distinct URL strings give distinct keys up to SHA-256); " +
-			"(d) Set gates: nil bundle, nil base CRL, marshal error and write error are fail-closed; what is written is the marshalled entry.",
+			"(d) Set gates: nil bundle, nil base CRL, marshal error and write error are fail-closed; what is written is the marshalled entry. " +
+			"The read of Get and the writer call of Set may stand in a helper of the package reached by calls made once; the clock comparison may use any standard-library spelling (After/Before/Compare/Sub/Since/Until) or a predicate; the guard for an absent delta may stand in the callee (expiry check, parse helper, raw-bytes helper).",
 		NotCov:  "byte equality through x509.ParseRevocationList and encoding/json (std), SHA-256 collision freedom.",
-		Trusted: []string{"go/types, go/ssa", "crypto/sha256, encoding/hex, encoding/json, crypto/x509", "x509.ParseRevocationList returns a non-nil list whenever its error is nil (used only when the expiry checks are written as a loop that skips nil lists)"},
+		Trusted: []string{"go/types, go/ssa", "crypto/sha256, encoding/hex, encoding/json, crypto/x509", "x509.ParseRevocationList returns a non-nil list whenever its error is nil (used only when the expiry checks skip a nil list: a loop over a table of the lists, or a checking function that answers for an absent list itself)"},
 	})
 }
 
@@ -81,15 +82,17 @@ func findCRL(c *Ctx) *crlAnchors {
 	// itself may have been moved into a function the writer calls); when Set calls no such function, the function that
 	// renames is still examined, and Set is reported for not using it.
 	if a.Set != nil {
-		for _, ci := range allCalls(a.Set) {
-			g := staticCallee(ci)
-			if g == nil || g.Blocks == nil || g.Parent() != nil || fnPkg(g) == nil || fnPkg(g).Path() != modPath+"/internal/file" {
-				continue
-			}
-			fam, _ := c14Family(w, g)
-			for _, f := range fam {
-				if len(findCalls(f, "os.Rename")) > 0 {
-					a.WF = g
+		for _, sf := range append([]*ssa.Function{a.Set}, calleesInPkg(w, a.Set, "verifier/crl")...) {
+			for _, ci := range allCalls(sf) {
+				g := staticCallee(ci)
+				if g == nil || g.Blocks == nil || g.Parent() != nil || fnPkg(g) == nil || fnPkg(g).Path() != modPath+"/internal/file" {
+					continue
+				}
+				fam, _ := c14Family(w, g)
+				for _, f := range fam {
+					if len(findCalls(f, "os.Rename")) > 0 {
+						a.WF = g
+					}
 				}
 			}
 		}
@@ -129,14 +132,14 @@ func runC14(c *Ctx) {
 		c14Writer(c, unit, ruleW)
 	}
 	// ---- (b) call site in Set ----------------------------------------------------
-	var wcall *ssa.Call
-	for _, ci := range allCalls(a.Set) {
-		if call, ok := ci.(*ssa.Call); ok && WF != nil && staticCallee(call) == WF {
-			wcall = call
-		}
-	}
+	// The call of the writer may stand in Set or in a function of the package that only Set reaches, by calls made once
+	// (`c.writeEntry(url, contentBytes)`): its arguments are then read in Set's frame, the helper's parameters replaced
+	// by the arguments of the call(s) that lead to it (c15WriterCall, c15UpChain).
+	setUnit := append([]*ssa.Function{a.Set}, calleesInPkg(w, a.Set, "verifier/crl")...)
+	wcall, frW, whyNoW := c15WriterCall(w, a, setUnit)
 	if wcall != nil {
-		ok, why := ownedBytes(w, a.Set, wcall.Call.Args[contentArg], 0)
+		cv, cf := c15UpChain(frW, wcall.Parent(), wcall.Call.Args[contentArg])
+		ok, why := ownedBytes(w, cf, cv, 0)
 		c.Check(ok, "writer/content-owned", "the bytes handed to the writer belong to this call alone (a fresh encoding, never a view of a pooled or shared buffer that another goroutine may rewrite while they are being written)", w.InstrPos(wcall), why)
 	}
 	recv := "param:" + a.Set.Params[0].Name()
@@ -144,11 +147,13 @@ func runC14(c *Ctx) {
 	wantPath := "call:path/filepath.Join({" + recv + ".root," + callForm(a.Key, 0, recv, urlP) + "})"
 	c.SeenFn(a.Set.String())
 	if wcall == nil {
-		c.Bad("set/uses-writer", "Set stores the entry through the atomic writer", w.FnPos(a.Set), "Set does not call the temp-file-and-rename writer")
+		c.Bad("set/uses-writer", "Set stores the entry through the atomic writer", w.FnPos(a.Set), "Set does not call the temp-file-and-rename writer: "+whyNoW)
 	} else {
+		c.SeenFn(wcall.Parent().String())
 		c.OK("set/uses-writer", "Set stores the entry through the atomic writer", w.InstrPos(wcall))
-		c.Check(desc(wcall.Call.Args[dirArg]) == recv+".root", "set/temp-in-cache-root", "the temporary file is created in the cache root (same directory, hence same file system, as the entry)", w.InstrPos(wcall), "temp dir is "+desc(wcall.Call.Args[dirArg]))
-		c.Check(desc(wcall.Call.Args[pathArg]) == wantPath && c15KeyOfURL(a, a.Set, wcall.Call.Args[pathArg], a.Set.Params[2], 0), "set/destination", "the destination is Join(root, key(url)) for the URL being stored", w.InstrPos(wcall), "destination is "+desc(wcall.Call.Args[pathArg]))
+		c.Check(frW.in(desc(wcall.Call.Args[dirArg])) == recv+".root", "set/temp-in-cache-root", "the temporary file is created in the cache root (same directory, hence same file system, as the entry)", w.InstrPos(wcall), "temp dir is "+frW.in(desc(wcall.Call.Args[dirArg])))
+		okD, whyD := c15PathIsKeyOfURL(a, setUnit, a.Set, wcall.Parent(), wcall.Call.Args[pathArg], wantPath)
+		c.Check(okD, "set/destination", "the destination is Join(root, key(url)) for the URL being stored", w.InstrPos(wcall), "destination is "+whyD)
 	}
 	// ---- (c) who may write ----------------------------------------------------------
 	ruleM := "who-may-write: in package verifier/crl the only file-mutating calls are os.MkdirAll in the constructor and the atomic writer in Set"
@@ -168,7 +173,7 @@ func runC14(c *Ctx) {
 			muts = append(muts, fnName(fn)+":"+n)
 			switch {
 			case n == "os.MkdirAll" && a.Ctor != nil && fn == a.Ctor:
-			case WF != nil && staticCallee(ci) == WF && fn == a.Set:
+			case wcall != nil && ci == ssa.CallInstruction(wcall):
 			default:
 				okM = false
 			}
@@ -210,7 +215,11 @@ func runC14(c *Ctx) {
 			}
 		}
 	}
-	okR := len(reads) == 1 && calleeName(reads[0]) == "os.ReadFile" && desc(reads[0].Common().Args[0]) == gpath && c15KeyOfURL(a, a.Get, reads[0].Common().Args[0], a.Get.Params[2], 0)
+	// the one read may stand in a function of the package Get reaches by calls made once: its path is read in Get's frame
+	okR := len(reads) == 1 && calleeName(reads[0]) == "os.ReadFile"
+	if okR {
+		okR, _ = c15PathIsKeyOfURL(a, append([]*ssa.Function{a.Get}, calleesInPkg(w, a.Get, "verifier/crl")...), a.Get, reads[0].Parent(), reads[0].Common().Args[0], gpath)
+	}
 	var names []string
 	for _, r := range reads {
 		names = append(names, calleeName(r)+"@"+w.InstrPos(r))
@@ -762,13 +771,11 @@ func runC15(c *Ctx) {
 		}
 		for f, lfs := range leaves {
 			for _, lf := range lfs {
+				// the parse call itself, or the result of a function that hands back nothing but nil and such a parse
+				// result (c15ParsedFrom), read in the frame of the decoding function
 				good := false
-				if ex, ok := lf.v.(*ssa.Extract); ok && ex.Index == 0 {
-					if call, ok := ex.Tuple.(*ssa.Call); ok && calleeName(call) == "crypto/x509.ParseRevocationList" {
-						if frP := c15FramePath(getUnit, Fu, lf.fn); frP != nil && frP.in(desc(call.Call.Args[0])) == ed+"."+f {
-							good = true
-						}
-					}
+				if frP := c15FramePath(getUnit, Fu, lf.fn); frP != nil {
+					good = c15ParsedFrom(w, getUnit, lf.v, ed+"."+f, frP.in, 0)
 				}
 				if !good {
 					okPair = false
@@ -888,13 +895,21 @@ func runC15(c *Ctx) {
 		okF := len(storedVals[f]) > 0 && frE != nil
 		var got []string
 		for _, v := range storedVals[f] {
-			d := desc(v)
-			if frE != nil {
-				d = frE.in(d)
-			}
-			got = append(got, d)
-			if d != bp+"."+f+".Raw" {
+			// what the value can be other than nil — itself, or what a helper of the package hands back for it
+			// (`rawOf(bundle.DeltaCRL)`: nil or list.Raw), read in the frame of its call (c15ValueSpellings)
+			ds, okV := c15ValueSpellings(w, setUnit, v, 0)
+			if !okV || len(ds) == 0 {
 				okF = false
+				ds = append(ds, desc(v))
+			}
+			for _, d := range ds {
+				if frE != nil {
+					d = frE.in(d)
+				}
+				got = append(got, d)
+				if d != bp+"."+f+".Raw" {
+					okF = false
+				}
 			}
 		}
 		if !okF {
@@ -906,14 +921,29 @@ func runC15(c *Ctx) {
 	// ---- (b) gates of Get ---------------------------------------------------------------
 	// Facts are compared as whole labels: a disjunction that merely contains the wanted fact is weaker and does not count.
 	gNeeds := []c15Need{}
+	// The read may stand in Get or in a function of the package reached from Get by calls made once (`contentBytes, err
+	// := c.readEntry(url)`): its facts are then facts of that function, read in Get's frame.
 	var rf *ssa.Call
-	for _, ci := range findCalls(Get, "os.ReadFile") {
-		rf, _ = ci.(*ssa.Call)
+	var Fr *ssa.Function
+	var frR *c15Frame
+	nRf := 0
+	for _, f := range getUnit {
+		for _, ci := range findCalls(f, "os.ReadFile") {
+			nRf++
+			if call, ok := ci.(*ssa.Call); ok {
+				rf, Fr = call, f
+			}
+		}
 	}
-	if rf != nil {
-		gNeeds = append(gNeeds, c15Need{"read-error", "os.ReadFile err == nil", "EQ(" + desc(rf) + "#err,nil)", nil})
+	if nRf == 1 && rf != nil {
+		frR = c15FramePath(getUnit, Get, Fr)
+	}
+	if frR != nil {
+		c.SeenFn(Fr.String())
+		gNeeds = append(gNeeds, c15Need{"read-error", "os.ReadFile err == nil", frR.in("EQ(" + desc(rf) + "#err,nil)"), nil})
 	} else {
-		c.Bad("get/read-error", "Get reads the entry with os.ReadFile and fails on a read error", w.FnPos(Get), "no os.ReadFile call in Get itself (a read delegated to a helper is not understood)")
+		rf = nil
+		c.Bad("get/read-error", "Get reads the entry with os.ReadFile and fails on a read error", w.FnPos(Get), fmt.Sprintf("%d os.ReadFile calls in Get and the functions of the package it calls (exactly one, in Get or a function called once on the way, is understood)", nRf))
 	}
 	gNeeds = append(gNeeds,
 		c15Need{"decode-error", "json.Unmarshal err == nil", frU.in("EQ(" + desc(um) + ",nil)"), nil},
@@ -928,12 +958,7 @@ func runC15(c *Ctx) {
 	// of the function that builds the bundle — whichever of several objects that is, the facts are about the one
 	// returned), or, with a single object, as the local the field was filled from. A spelling that names a local is
 	// used only when there is one bundle object: two locals of one type and name print alike.
-	var EXs []*ssa.Function
-	for _, f := range getUnit[1:] {
-		if f.Parent() == nil && len(findCalls(f, "time.Now")) > 0 {
-			EXs = append(EXs, f)
-		}
-	}
+	EXs := c15ExpiryFns(getUnit)
 	lists := map[string][]string{} // field -> spellings of the bundle's list
 	for _, f := range []string{"BaseCRL", "DeltaCRL"} {
 		if okRet && (single != nil || !strings.Contains(retDesc, "alloc:"+namedOf(bundleT))) {
@@ -947,8 +972,10 @@ func runC15(c *Ctx) {
 		}
 	}
 	notZero := func(v string) string { return "F(call:(time.Time).IsZero(" + v + ".NextUpdate))" }
+	// "now is not after v.NextUpdate" in any of its standard-library spellings (c15ClockLabels)
 	fresh := func(v string) []string {
-		return []string{"F(call:(time.Time).After(call:time.Now()," + v + ".NextUpdate))", "F(call:(time.Time).Before(" + v + ".NextUpdate,call:time.Now()))"}
+		_, fr := c15ClockLabels(v + ".NextUpdate")
+		return fr
 	}
 	// The checks may also be written as one loop over a table of the bundle's lists (c15TableLoops): the loop
 	// establishes, for each list in the table, "nil, or checked" at every success exit. For the delta that is the
@@ -972,6 +999,33 @@ func runC15(c *Ctx) {
 		c.Bad("get/base-expiry", "Get checks the expiry of the base CRL", w.FnPos(Get), "no expiry check on a NextUpdate")
 	} else {
 		rule := "must-check: every success-capable exit of " + fnName(Get) + " lies behind: NextUpdate of the bundle's base CRL is not zero and time.Now() is not after it"
+		// The check may also answer for an absent list itself (the guard `list == nil -> nothing to check` stands in
+		// the checking function, or around the check): what the paths then establish for a list v is "v is nil, or its
+		// NextUpdate is not zero" and "v is nil, or now is not after its NextUpdate" — no success of Get without passing,
+		// in Get or inside a function whose success Get waits for, an edge that carries one of the two facts (c15Blocked,
+		// the callee's facts read with its parameters replaced by the arguments). As with the table loop that is the
+		// obligation once the base list is known not to be nil: it is result 0 of the ParseRevocationList call whose error
+		// every success exit has tested nil (pairing/get, the exit's own fact). And because a nil list now passes, the
+		// facts must be about the list the bundle finally holds: every read of the field of a local bundle object (a
+		// load, or a call that is handed the object) comes after the field was filled (c15ReadsSeeStores) — a check
+		// that ran before the parse would see nil and succeed.
+		baseNilOrChecked := map[string]bool{}
+		orderWhy := ""
+		for _, v := range lists["BaseCRL"] {
+			okZ, nZ, _ := c15Blocked(w, Get, m, oneOfLabels([]string{"EQ(" + v + ",nil)", notZero(v)}), 0)
+			okF, nF, _ := c15Blocked(w, Get, m, oneOfLabels(append(fresh(v), "EQ("+v+",nil)")), 0)
+			c.Evals += 2
+			if !okZ || nZ == 0 || !okF || nF == 0 {
+				continue
+			}
+			ordered := true
+			for _, o := range objs {
+				if ok, why := c15ReadsSeeStores(w, o.al, "BaseCRL", o.sts); !ok {
+					ordered, orderWhy = false, "; "+why
+				}
+			}
+			baseNilOrChecked[v] = ordered
+		}
 		okBase := len(s.Exits) > 0
 		bdetail := "no success-capable exit"
 		site := w.FnPos(Get)
@@ -979,18 +1033,20 @@ func runC15(c *Ctx) {
 			c.Evals++
 			okEx := false
 			for _, v := range lists["BaseCRL"] {
-				fr := fresh(v)
-				if labelHas(ex.Checked, notZero(v)) && (labelHas(ex.Checked, fr[0]) || labelHas(ex.Checked, fr[1])) {
+				if labelHas(ex.Checked, notZero(v)) && labelHasAny(ex.Checked, fresh(v)) {
 					okEx = true
 					site = ex.Checked[notZero(v)]
 				}
 				if tf.nilOrFresh[v] && tf.nilOrNotZero[v] && okPair && labelHas(ex.Checked, baseParsed) {
 					okEx = true
 				}
+				if baseNilOrChecked[v] && okPair && labelHas(ex.Checked, baseParsed) {
+					okEx = true
+				}
 			}
 			if !okEx {
 				okBase = false
-				bdetail = fmt.Sprintf("success-capable exit at %s is reachable without that check; facts that do hold on every path to it: %s", w.InstrPos(ex.Ret), summarizeLabels(ex.Checked, 12))
+				bdetail = fmt.Sprintf("success-capable exit at %s is reachable without that check%s; facts that do hold on every path to it: %s", w.InstrPos(ex.Ret), orderWhy, summarizeLabels(ex.Checked, 12))
 				site = w.InstrPos(ex.Ret)
 				break
 			}
@@ -1010,7 +1066,15 @@ func runC15(c *Ctx) {
 				}
 			}
 		}
-		c.slot(ok && n >= 2, n, "get/delta-expiry", "whenever the bundle has a delta CRL its expiry check passes (independently of the base)", w.FnPos(Get), "a bundle whose delta CRL is expired is returned", wit...)
+		// "The delta is nil, or it was checked" is a fact about the delta the bundle finally holds only when the field of
+		// a local bundle object is read after it was filled (c15ReadsSeeStores): a check placed before the parse sees nil.
+		ddetail := "a bundle whose delta CRL is expired is returned"
+		for _, o := range objs {
+			if okO, why := c15ReadsSeeStores(w, o.al, "DeltaCRL", o.sts); !okO {
+				ok, ddetail = false, ddetail+": "+why
+			}
+		}
+		c.slot(ok && n >= 2, n, "get/delta-expiry", "whenever the bundle has a delta CRL its expiry check passes (independently of the base)", w.FnPos(Get), ddetail, wit...)
 		for _, EX := range EXs {
 			c15Expiry(c, EX)
 		}
@@ -1019,22 +1083,48 @@ func runC15(c *Ctx) {
 		ok, n, wit := c15Blocked(w, Get, m, oneOfLabels([]string{"EQ(" + ed + ".DeltaCRL,nil)", "EQ(call:crypto/x509.ParseRevocationList(" + ed + ".DeltaCRL)#err,nil)"}), 0)
 		c.slot(ok && n >= 2, n, "get/delta-parse-error", "whenever a delta CRL is stored it must parse", w.FnPos(Get), "an entry with an unparsable delta CRL is returned", wit...)
 	}
-	// not-exist -> miss sentinel
+	// not-exist -> miss sentinel: in the function that reads, some return delivers nothing but the sentinel (itself, or
+	// wrapped with %w), arriving by a way that is only open when the read error is "does not exist" (c15SentinelWays);
+	// and when that function is not Get, each caller on the way hands the error of the call on — itself or wrapped with
+	// %w — next to a nil bundle (c15ErrWays), so that errors.Is still finds the sentinel in what Get returns.
 	if rf != nil {
+		// errors.Is(err, fs.ErrNotExist), or its older spelling os.IsNotExist(err): the error tested is the one os.ReadFile
+		// itself returned, a *PathError of package os, and for those the two agree
+		notExist := []string{"T(call:errors.Is(" + desc(rf) + "#err,global:io/fs.ErrNotExist))", "T(call:os.IsNotExist(" + desc(rf) + "#err))"}
 		okMiss := false
-		for _, b := range Get.Blocks {
+		missDetail := "no miss for a non-existent entry"
+		rfi := w.Info(Fr)
+		for _, b := range Fr.Blocks {
 			r, isRet := blockTerm(b).(*ssa.Return)
-			if !isRet || len(r.Results) != 2 {
+			if !isRet || len(r.Results) != 2 || !c15OnlyErrorReturned(r) {
 				continue
 			}
-			if desc(r.Results[1]) == "global:core/revocation/crl.ErrCacheMiss" && isNilConst(r.Results[0]) {
-				g, _ := gfi.mustPassBetween([]int{0}, map[int]bool{b.Index: true})
-				if labelHas(g, "T(call:errors.Is("+desc(rf)+"#err,global:io/fs.ErrNotExist))") {
+			for _, facts := range c15SentinelWays(rfi, r.Results[1], b, "global:core/revocation/crl.ErrCacheMiss", 0) {
+				c.Evals++
+				if labelHasAny(facts, notExist) {
 					okMiss = true
 				}
 			}
 		}
-		c.Check(okMiss, "get/missing-is-miss", "a URL never stored (file does not exist) yields the cache-miss sentinel, other read errors an error", w.FnPos(Get), "no miss for a non-existent entry")
+		for fr := frR; okMiss && fr != nil && !fr.ident && fr.call != nil; fr = fr.outer {
+			caller := fr.call.Parent()
+			cfi := w.Info(caller)
+			fwd := false
+			for _, b := range caller.Blocks {
+				r, isRet := blockTerm(b).(*ssa.Return)
+				if !isRet || len(r.Results) != 2 || !c15OnlyErrorReturned(r) {
+					continue
+				}
+				if len(c15ErrWays(cfi, r.Results[1], b, c15IsErrOf(fr.call), 0)) > 0 {
+					fwd = true
+				}
+			}
+			if !fwd {
+				okMiss = false
+				missDetail = fnName(caller) + " does not hand on the error of " + calleeName(fr.call) + " (itself or wrapped with %w): the miss is lost on the way"
+			}
+		}
+		c.Check(okMiss, "get/missing-is-miss", "a URL never stored (file does not exist) yields the cache-miss sentinel, other read errors an error", w.FnPos(Get), missDetail)
 	}
 	// the bundle returned is one of those filled: the object itself, or the result of the function that fills it, which
 	// hands back such an object on every exit that reports success (c15ResolveObjs, computed above)
@@ -1047,36 +1137,41 @@ func runC15(c *Ctx) {
 	// ---- (c) confinement ------------------------------------------------------------------
 	wfUnit, _ := c14FindUnit(w, a.WF)
 	_, pathArg, contentArg := wfUnit.roles() // which argument of the writer is the destination, which the content
+	// The file-system calls of Get / Set may stand in functions of the package they call: each path is judged where it is
+	// used, read in the frame of Get / Set (c15PathIsKeyOfURL).
 	for _, fn := range []*ssa.Function{Get, Set} {
+		unit := getUnit
+		if fn == Set {
+			unit = setUnit
+		}
 		recv := "param:" + fn.Params[0].Name()
 		urlP := "param:" + fn.Params[2].Name()
 		want := "call:path/filepath.Join({" + recv + ".root," + callForm(a.Key, 0, recv, urlP) + "})"
 		ok := true
 		var bad []string
 		n := 0
-		for _, ci := range allCalls(fn) {
-			nm := calleeName(ci)
-			isFS := fsReaders[nm] || fsMutators[nm]
-			var pathArgs []ssa.Value
-			if isFS && len(ci.Common().Args) > 0 && ci.Common().Args[0].Type().String() == "string" {
-				pathArgs = append(pathArgs, ci.Common().Args[0])
-			}
-			if g := staticCallee(ci); g != nil && a.WF != nil && g == a.WF {
-				isFS = true
-				pathArgs = append(pathArgs, ci.Common().Args[pathArg])
-			}
-			if !isFS {
-				continue
-			}
-			for _, pa := range pathArgs {
-				n++
-				c.Evals++
-				if desc(pa) != want {
-					ok = false
-					bad = append(bad, nm+"("+desc(pa)+")")
-				} else if !c15KeyOfURL(a, fn, pa, fn.Params[2], 0) {
-					ok = false
-					bad = append(bad, nm+"("+desc(pa)+" — the key of another string than the URL parameter)")
+		for _, f := range unit {
+			for _, ci := range allCalls(f) {
+				nm := calleeName(ci)
+				isFS := fsReaders[nm] || fsMutators[nm]
+				var pathArgs []ssa.Value
+				if isFS && len(ci.Common().Args) > 0 && ci.Common().Args[0].Type().String() == "string" {
+					pathArgs = append(pathArgs, ci.Common().Args[0])
+				}
+				if g := staticCallee(ci); g != nil && a.WF != nil && g == a.WF {
+					isFS = true
+					pathArgs = append(pathArgs, ci.Common().Args[pathArg])
+				}
+				if !isFS {
+					continue
+				}
+				for _, pa := range pathArgs {
+					n++
+					c.Evals++
+					if good, why := c15PathIsKeyOfURL(a, unit, fn, f, pa, want); !good {
+						ok = false
+						bad = append(bad, nm+"("+why+")")
+					}
 				}
 			}
 		}
@@ -1085,16 +1180,9 @@ func runC15(c *Ctx) {
 	// ---- (d) Set gates ------------------------------------------------------------------------
 	ss := w.Summarize(Set, m)
 	c.Evals += ss.States
-	var wcall, mcall *ssa.Call
-	for _, ci := range allCalls(Set) {
-		call, ok := ci.(*ssa.Call)
-		if !ok {
-			continue
-		}
-		if a.WF != nil && staticCallee(call) == a.WF {
-			wcall = call
-		}
-	}
+	// the call of the writer: in Set, or in a function of the package only Set reaches by calls made once (c15WriterCall)
+	var mcall *ssa.Call
+	wcall, frW, _ := c15WriterCall(w, a, setUnit)
 	// The encoder may stand in Set or in a function Set calls (`contentBytes, err := encodeBundle(bundle)`): it is found
 	// from what is written — the content argument of the writer is result 0 of a json.Marshal call, directly or handed
 	// back by the function(s) in between on every exit that reports success (c15MarshalOf). Its error is then a fact of
@@ -1102,7 +1190,8 @@ func runC15(c *Ctx) {
 	var Fm *ssa.Function
 	var frM *c15Frame
 	if wcall != nil {
-		if mcall = c15MarshalOf(w, setUnit, wcall.Call.Args[contentArg], 0); mcall != nil {
+		cv, _ := c15UpChain(frW, wcall.Parent(), wcall.Call.Args[contentArg])
+		if mcall = c15MarshalOf(w, setUnit, cv, 0); mcall != nil {
 			Fm = mcall.Parent()
 			frM = c15FramePath(setUnit, Set, Fm)
 			c.SeenFn(Fm.String())
@@ -1124,7 +1213,11 @@ func runC15(c *Ctx) {
 		setNeeds = append(setNeeds, c15Need{"marshal-error", "json.Marshal err == nil", frM.in("EQ(" + desc(mcall) + "#err,nil)"), x})
 	}
 	if wcall != nil {
-		setNeeds = append(setNeeds, c15Need{"write-error", "the writer's err == nil", "EQ(" + desc(wcall) + ",nil)", wcall})
+		var x ssa.Value
+		if wcall.Parent() == Set {
+			x = wcall
+		}
+		setNeeds = append(setNeeds, c15Need{"write-error", "the writer's err == nil", frW.in("EQ(" + desc(wcall) + ",nil)"), x})
 	}
 	c.c15RequireOnExits("set", Set, ss.Exits, setNeeds)
 	// What is marshalled is the entry as it stands after all its fields were stored: the local itself (read after the
@@ -1171,7 +1264,26 @@ func runC15(c *Ctx) {
 				cut := efi.edgesMatching(func(l string, _ *ssa.If, _ bool) bool { return frE.in(l) == noDelta })
 				cutInto(efi, st.Block(), cut)
 				wit := efi.successWitness(m, entryState(), cut)
-				c.Check(wit == nil, "set/delta-stored-when-present", "whenever the bundle has a delta CRL it is stored", w.InstrPos(st), "a delta CRL can be dropped", wit...)
+				// and what is stored is nil only where the bundle has no delta: every way the stored value can be nil (a nil
+				// arm of a phi, a nil handed back by the helper that answers for an absent list) lies behind
+				// `bundle.DeltaCRL == nil`, read in Set's frame (c15NilWays)
+				dropped := "a delta CRL can be dropped"
+				ways, okW := c15NilWays(w, setUnit, efi, st.Val, st.Block(), 0)
+				okNil := okW
+				for _, wy := range ways {
+					c.Evals++
+					behind := false
+					for l := range wy {
+						if frE.in(l) == noDelta {
+							behind = true
+						}
+					}
+					if !behind {
+						okNil = false
+						dropped = "nil can be stored as the entry's delta although the bundle has one"
+					}
+				}
+				c.Check(wit == nil && okNil, "set/delta-stored-when-present", "whenever the bundle has a delta CRL it is stored", w.InstrPos(st), dropped, wit...)
 			}
 		}
 	}
@@ -1183,20 +1295,9 @@ func c15Expiry(c *Ctx, EX *ssa.Function) {
 	w := c.W
 	c.SeenFn(EX.String())
 	fi := w.Info(EX)
-	var tp string
-	for _, ci := range allCalls(EX) {
-		args := ci.Common().Args
-		switch calleeName(ci) {
-		case "(time.Time).After":
-			if desc(args[0]) == "call:time.Now()" {
-				tp = desc(args[1])
-			}
-		case "(time.Time).Before":
-			if desc(args[1]) == "call:time.Now()" {
-				tp = desc(args[0])
-			}
-		}
-	}
+	// The time judged: what the function's own branch facts compare the clock with (any standard-library spelling, the
+	// comparison standing in the function or in a predicate it calls); failing that, its parameter of type time.Time.
+	tp := c15JudgedTime(fi)
 	if tp == "" {
 		for _, p := range EX.Params {
 			if p.Type().String() == "time.Time" {
@@ -1206,21 +1307,32 @@ func c15Expiry(c *Ctx, EX *ssa.Function) {
 	}
 	s := w.Summarize(EX, Mode{Kind: mErr})
 	c.Evals += s.States
-	expired := []string{"T(call:(time.Time).After(call:time.Now()," + tp + "))", "T(call:(time.Time).Before(" + tp + ",call:time.Now()))"}
-	c.requireOnExits("expiry", EX, s.Exits, []Need{
-		exactNeed("zero-next-update", "NextUpdate is not the zero time", "F(call:(time.Time).IsZero("+tp+"))"),
-		exactNeed("not-expired", "not time.Now().After(nextUpdate)", "F"+expired[0][1:], "F"+expired[1][1:]),
-	})
-	// expired -> the miss sentinel
+	expired, freshOK := c15ClockLabels(tp)
+	// When the time judged is the NextUpdate of a list the function is handed (`L.NextUpdate`), the function may also
+	// answer for an absent list: a success that lies behind `L == nil` (exactly that fact, for exactly the list whose
+	// NextUpdate is judged) judges no time at all. What the function then guarantees is "the list is absent, or its
+	// NextUpdate is not zero / not passed"; whether absence is acceptable is not decided here but in Get: for the delta
+	// CRL it is the obligation itself (get/delta-expiry: "whenever the bundle has a delta"), for the base CRL Get must
+	// in addition know the list is there (get/base-expiry). The guard clause `if bundle.DeltaCRL != nil` of the caller
+	// moved into the callee is this shape.
+	zeroOK := []string{"F(call:(time.Time).IsZero(" + tp + "))"}
+	if root := strings.TrimSuffix(tp, ".NextUpdate"); root != tp && root != "" {
+		zeroOK = append(zeroOK, "EQ("+root+",nil)")
+		freshOK = append(freshOK, "EQ("+root+",nil)")
+	}
+	c.c15RequireOrBlocked("expiry", EX, s.Exits, "zero-next-update", "NextUpdate is not the zero time", zeroOK)
+	c.c15RequireOrBlocked("expiry", EX, s.Exits, "not-expired", "not time.Now().After(nextUpdate)", freshOK)
+	// expired -> the miss sentinel: some returned value is the sentinel, or wraps it with %w, arriving by a way that is
+	// only open when now is after NextUpdate (c15SentinelWays)
 	okMiss := false
 	for _, b := range EX.Blocks {
 		r, isRet := blockTerm(b).(*ssa.Return)
-		if !isRet {
+		if !isRet || len(r.Results) == 0 {
 			continue
 		}
-		if desc(r.Results[0]) == "global:core/revocation/crl.ErrCacheMiss" {
-			g, _ := fi.mustPassBetween([]int{0}, map[int]bool{b.Index: true})
-			if labelHas(g, expired[0]) || labelHas(g, expired[1]) {
+		for _, facts := range c15SentinelWays(fi, r.Results[len(r.Results)-1], b, "global:core/revocation/crl.ErrCacheMiss", 0) {
+			c.Evals++
+			if labelHasAny(facts, expired) {
 				okMiss = true
 			}
 		}
